@@ -202,6 +202,7 @@ func runProc(fs *simos.FS, spec ProcSpec, io IOCfg, prevStdout []byte) ProcResul
 		case r.Deadlock:
 			// what the Go runtime prints when no goroutine can ever run again
 			p.Finish(simos.CrashPanic{Value: "fatal error: all goroutines are asleep - deadlock!", Stack: "deadlock (main goroutine blocked; last releases: " + strings.Join(lastN(r.Trace, 6), " ") + ")"}, "")
+			p.CrashAt = "deadlock"
 		default:
 			p.Finish(nil, "")
 		}
